@@ -212,10 +212,11 @@ def judgeGet (o : VerOps) (c : List Nat) (a : Bytes) (impl : String) : Verdict :
   return v
 
 /-- `O ver obj | vec lenVec gets rt nom` -/
-def judgeObj (o : VerOps) (c : List Nat) (impl : String) : Verdict := Id.run do
+def judgeObj (o : VerOps) (c : List Nat) (reached : Bool) (impl : String) : Verdict := Id.run do
   let nom := if o.ver == .v40 then hexB (o.nomen c) else "-"
   let mut v := corr s!"{hexB (o.vector c)} {o.lenVec c} {getsS o c} {rtS o c} {nom}" impl
-  if o.wf c then
+  if reached && !(o.wf c) then v := v.add "C09" "object reached through the API is not well formed"
+  if o.wf c || reached then
     match impl.splitOn " " with
     | [vec, lv, gets, rt, nm] =>
       let vb := unhex vec
@@ -273,8 +274,8 @@ def judge (line : String) : Verdict × String :=
     | ["G", ver, c, a] => match opsOf ver with
       | some o => (judgeGet o (unhex c) (unhex a) impl, "G" ++ ver)
       | none => ({ diff := some "BAD-OP" }, "?")
-    | ["O", ver, c] => match opsOf ver with
-      | some o => (judgeObj o (unhex c) impl, "O" ++ ver)
+    | ["O", ver, c, r] => match opsOf ver with
+      | some o => (judgeObj o (unhex c) (r == "1") impl, "O" ++ ver)
       | none => ({ diff := some "BAD-OP" }, "?")
     | ["A", ver, kind, a1, a2, a3] => match opsOf ver with
       | some o => (judgeAlloc o kind a1 a2 a3 impl, "A" ++ ver ++ kind)
